@@ -77,7 +77,7 @@ def cases(tier, seed):
                    "sel_seed": seed * 37 + 1111 + k})
     for i in range(n_thermo):
         g = dict(seed=rng.randrange(10 ** 9), ndims=3, nlevels=1 + i % 2, bf=2, base_blocks=(2, 3),
-                 maxsz=4, payload="thermo")
+                 maxsz=4, payload="thermo_trace" if i % 4 == 2 else "thermo")      # every fourth: an almost uniform mixture
         cs.append({"kind": "thermo", "gen": g, "sel_seed": seed * 41 + i, **({"store": "files"} if i % 4 == 1 else {})})
     if tier == "thorough":      # an OUTPUT binary file larger than 2 GiB (a many-component recipe): 2 GB written, ~30 s
         cs.append({"kind": "huge_output", "sel_seed": seed * 43})
